@@ -151,6 +151,7 @@ def build_machine(ctx, prog, explore=True, extra_intrinsics=None):
         'clamp': {'_unicodeCount': (0, 12)},
         'stacks': {'_context': {'bottom': 'ROOT', 'init': ('ROOT',), 'push_kind': push_kind, 'kind_value': kind_value, 'transient': COMMENT_KINDS}},
         'inline': {'value_end'},
+        'texts': ('_buffer',),            # followed concretely when a concrete document is run through the machine (C06.docs)
         'pure': {'myisspace', 'myisalnum', 'myisalpha', 'myisdigit'},
         'intrinsics': {'begin_array': do_begin, 'begin_object': do_begin, 'end_array': do_end, 'end_object': do_end,
                        'put': do_put, 'new_number': do_put, 'new_string': do_put, 'new_bool': do_put, 'new_property': do_newprop},
@@ -465,7 +466,10 @@ def check_numbers(ctx, prog):
 
 CORPUS = [b'[1e5]', b'[1E+3,2]', b'{"a":1e5}', b'{"a":2E-3,"b":true}', b'[1.5,2]', b'[1.5]', b'[-1]', b'[0]', b'[10,20]', b'[1 ,2]', b'{"a":[1e2]}', b'[[1e1],2]',
           b'[true,false,null]', b'["x",1]', b'{"a":"b"}', b'[]', b'{}', b'[ ]', b'[1.0e+10 ]', b'[-0.5e-2,3]', b'{"a":{"b":[1,2.5,{"c":null}]},"d":"e"}',
-          b'["\\u00e9\\n",{"k":[]}]', b'{"a\xc3\xb1o":["\xe2\x82\xac"]}', b'{"application/json":"text/plain"}', b'[1,\n 2]\n', b'{"a" : 1 , "b" : [ ] }']
+          b'["\\u00e9\\n",{"k":[]}]', b'{"a\xc3\xb1o":["\xe2\x82\xac"]}', b'{"application/json":"text/plain"}', b'[1,\n 2]\n', b'{"a" : 1 , "b" : [ ] }',
+          b'[-0]', b'{"a":-0}', b'[-0.0,-0e1]', b'[1.5 ,2]', b'[1.5\n,2e1\t]',
+          # XDL: items separated by new lines only (what the pretty encoder writes)
+          b'{a=1.5\nb=2}', b'[1.5\n2.5\n]', b'{\n\ta=1.5e3\n\tb=[1.0\n2.0]\n\tc="x"\n}', b'{a=1\nb=Y\nc=[N\nY]}']
 
 
 def check_corpus(ctx, prog, m):
@@ -481,10 +485,12 @@ def check_corpus(ctx, prog, m):
     if m is None:
         return          # the parser loop is not a machine over its own state (reported by the machine / chunk rules)
     bad = None
+    bad_prefix = None
     total = 0
     for doc in CORPUS:
+        prefixes = []
         try:
-            envs = m.run_text(doc)
+            envs = m.run_text(doc, on_prefix=lambda es: prefixes.append(es))
         except automaton.Stuck as ex:
             ctx.undecided('C06.docs', f['pq'], role, fwhere(f), 'the abstract machine cannot follow %s: %s' % (doc.decode('latin-1'), ex))
             return
@@ -494,6 +500,37 @@ def check_corpus(ctx, prog, m):
         if not ok:
             bad = (doc, sorted(set(m.describe(e) for e in envs))[:3])
             break
+        # ... and no proper prefix that stops before the final closing character is accepted: while a container is open no run
+        # may show an empty container stack (the stack is followed exactly, so this needs no data)
+        last = len(doc.rstrip()) - 1
+        depth = mx = 0
+        instr = esc = False
+        for ch in doc.decode('latin-1'):
+            if instr:
+                esc = (ch == '\\') and not esc
+                if ch == '"' and not esc:
+                    instr = False
+                continue
+            if ch == '"':
+                instr = True
+            elif ch in '[{':
+                depth += 1
+                mx = max(mx, depth)
+            elif ch in ']}':
+                depth -= 1
+        if mx > automaton.K:
+            continue                # deeper than the exact window of the abstract stack: pops below it fork
+        for k_, es in enumerate(prefixes[:last]):
+            early = [e for e in es if e.vars.get('_state') != S['ERR'] and tuple(e.stacks['_context']) == ('ROOT',) and not e.vars.get('_inComment')]
+            if early and doc[:1] in (b'[', b'{'):
+                bad_prefix = (doc, doc[:k_ + 1])
+                break
+        if bad_prefix:
+            break
+    if bad_prefix:
+        ctx.violation('C06.docs', f['pq'], 'parse:no proper prefix of a document is accepted', fwhere(f), 'after the prefix %s of the document %s a run of the parser shows every container closed: a truncated document is accepted as complete' % (
+            bad_prefix[1].decode('latin-1'), bad_prefix[0].decode('latin-1')))
+        return
     ctx.check(bad is None, 'C06.docs', f['pq'], role, fwhere(f), '%d documents, %d final configurations: each document has a run that closes every container without error' % (len(CORPUS), total),
               'no run of the parser over the valid document %s ends with all containers closed and no error (final configurations: %s): the document is rejected or its structure is lost' % (
                   bad[0].decode('latin-1').replace('\n', '\\n') if bad else '', '; '.join(bad[1]) if bad else ''))
